@@ -103,6 +103,8 @@ def shards(tier, seed):
         for shape in ((300, 4096), (33000, 40)):
             for cross in (True, False):
                 out.append({"part": "D", "backend": backend, "K": shape[0], "L": shape[1], "cross": cross, "seed": seed})
+    for backend in ("numba", "numpy", "cuda"):
+        out.append({"part": "V", "backend": backend, "seed": seed})
     for cross in (True, False):  # CUDA host wrappers with more than one block of threads (K=300 > 256)
         out.append({"part": "D", "backend": "cuda", "K": 300, "L": 64, "cross": cross, "seed": seed})
     if tier == "thorough":
@@ -112,7 +114,7 @@ def shards(tier, seed):
         out.append({"part": "C", "backend": "cuda", "L": 257, "seed": seed})
     # expensive shards first for better packing
     def cost(s):
-        if s["part"] in ("C", "D"):
+        if s["part"] in ("C", "D", "V"):
             return 1e9
         if s["part"] == "B":
             nseq = sum((s["N"] - s["L"] + 1) ** k for k in range(1, s["Kmax"] + 1))
@@ -142,7 +144,7 @@ def _via_sim(shard):
 def run_shard(shard):
     if shard["backend"] == "cuda" and not IN_SIM:
         return _via_sim(shard)
-    return {"A": _part_A, "B": _part_B, "C": _part_C, "D": _part_D, "A1": _single}[shard["part"]](shard)
+    return {"A": _part_A, "B": _part_B, "C": _part_C, "D": _part_D, "V": _part_V, "A1": _single}[shard["part"]](shard)
 
 
 def replay(case):
@@ -388,3 +390,34 @@ def _part_D(shard):
                 fails.append(fw.fail(key, f"{key}: K={K} segments of L={L} (K*L={K * L}) win={wn} w={w:.5g}: got {got} reference {ref} tol {tol}", dict(shard)))
     samples.append({"part": "D", "backend": backend, "K": K, "L": L, "KL": K * L})
     return {"evals": evals, "nontrivial": nontriv, "failures": fails, "samples": samples}
+
+
+def _part_V(shard):
+    """The two channels are overlapping / strided / reversed views of ONE buffer (a delayed copy built as buf[d:], buf[:-d]):
+    admissible records like any other."""
+    backend = shard["backend"]
+    buf = records.id1(40) + 0.2 * records.id3(40)
+    views = {"delay1": (buf[1:33], buf[0:32]), "delay5": (buf[5:37], buf[0:32]), "same": (buf[3:35], buf[3:35]),
+             "strided": (buf[0:64:2][:16], buf[1:64:2][:16]), "reversed": (buf[0:32], buf[0:32][::-1])}
+    fails = []
+    evals = nontriv = 0
+    for vn, (xv, yv) in views.items():
+        N = xv.shape[0]
+        for order, L in itertools.product(ORDERS, (4, 9)):
+            k = kern.get_kernel(backend, True, order)
+            win = _window("ramp", L)
+            starts = np.array([0, 3, N - L], dtype=np.int64)
+            ref = est.ref_stats(np.array(xv), np.array(yv), starts, L, win, 0.7, order)
+            tol = est.tolerances(np.array(xv), np.array(yv), starts, L, win, m2ref=ref[4])
+            try:
+                got = k(xv, yv, starts, L, win, 0.7)
+            except Exception as e:  # noqa: BLE001
+                got = None
+                err = f"{type(e).__name__}: {e}"
+            evals += 1
+            nontriv += int(kern.nontrivial(ref, tol))
+            bad = ["raises"] if got is None else kern.compare(got, ref, tol)
+            if bad:
+                key = f"V/{backend}/{vn}/order={order}/{'+'.join(bad)}"
+                fails.append(fw.fail(key, f"{key}: channels are views of one buffer ({vn}), L={L}: got {got if got is not None else err} reference {ref}", dict(shard)))
+    return {"evals": evals, "nontrivial": nontriv, "failures": fails, "samples": [{"part": "V", "backend": backend, "views": list(views)}]}
